@@ -197,7 +197,38 @@ def generator_case(rng):
                networkx.grid_2d_graph(2, 2), networkx.DiGraph([(0, 1), (1, 2), (0, 2)])]
 
         def nxsnap(h):
-            return (sorted(map(repr, h.nodes())), sorted(map(repr, h.edges())), dict(h.graph))
+            return (sorted(map(repr, h.nodes(data=True))), sorted(map(repr, h.edges(data=True))), repr(sorted(h.graph.items())),
+                    list(map(repr, h.nodes())), list(map(repr, h.edges())))
+        # networkx bipartite graphs: the side of a node is 0 / 1 as int, as bool, or as the strings a parsed file gives;
+        # nodes inserted in an order that makes networkx report some edges as (right, left); extra node / edge data
+        bips = []
+        for zero, one in ((0, 1), (False, True), ("0", "1")):
+            h = networkx.Graph(name="caller's graph")
+            for node, side in (("r1", one), ("l1", zero), ("l2", zero), ("r2", one), ("r3", one), ("l3", zero)):
+                h.add_node(node, bipartite=side, tag=[node])
+            for e in (("r1", "l1"), ("l1", "r2"), ("l2", "r2"), ("r3", "l3"), ("l3", "r1"), ("l2", "r3")):
+                h.add_edge(*e, weight=[1, 2])
+            bips.append(h)
+        for h in bips:
+            for fn in ("GraphPigeonholePrinciple", "SubsetCardinalityFormula", "VariableCompression", "BipartiteGraph.normalize",
+                       "SparseStoneFormula"):
+                before = nxsnap(h)
+                try:
+                    if fn == "VariableCompression":
+                        cnfgen.VariableCompression(cnfgen.PigeonholePrinciple(3, 1), h, "xor")
+                    elif fn == "BipartiteGraph.normalize":
+                        G.BipartiteGraph.normalize(h)
+                    elif fn == "SparseStoneFormula":
+                        dd = G.DirectedGraph(3)
+                        dd.add_edge(1, 2)
+                        dd.add_edge(2, 3)
+                        cnfgen.SparseStoneFormula(dd, h)
+                    else:
+                        getattr(cnfgen, fn)(h)
+                except Exception as e:
+                    return {"generator": fn, "networkx_argument": True, "raised": type(e).__name__, "msg": str(e)[:100]}
+                if nxsnap(h) != before:
+                    return {"generator": fn, "networkx_graph_argument_changed": nxsnap(h)[0], "was": before[0]}
         for h, fns in ((nxg[0], ("TseitinFormula", "GraphColoringFormula", "Tiling", "PerfectMatchingPrinciple")),
                        (nxg[1], ("TseitinFormula", "DominatingSet")), (nxg[2], ("GraphColoringFormula", "CliqueFormula")),
                        (nxg[3], ("PebblingFormula",))):
